@@ -18,6 +18,9 @@ fn main() {
         }
     }
     let out_path = script["out"].as_str().expect("script.out").to_string();
+    if std::env::var("VERIF_LOG").is_ok() {
+        let _ = snel_db::logging::init();
+    }
     let rt = tokio::runtime::Builder::new_multi_thread()
         .worker_threads(script["config"].get("threads").and_then(|t| t.as_u64()).unwrap_or(4) as usize)
         .enable_all()
@@ -55,6 +58,7 @@ async fn run(script: Value, out_path: String) -> i32 {
     let nshards = eng.shared.len();
     emit(&mut out, json!({"i": -1, "op": "opened", "live": (0..nshards).map(|s| eng.live(s)).collect::<Vec<_>>()}));
     let steps = script["steps"].as_array().cloned().unwrap_or_default();
+    let mut bg: std::collections::HashMap<String, (String, tokio::task::JoinHandle<CmdOutcome>)> = std::collections::HashMap::new();
     for (i, st) in steps.iter().enumerate() {
         let op = st["op"].as_str().unwrap_or("");
         let tag = st.get("tag").cloned().unwrap_or(Value::Null);
@@ -82,6 +86,72 @@ async fn run(script: Value, out_path: String) -> i32 {
                     o[k] = v.clone();
                 }
                 emit(&mut out, o);
+            }
+            "cmd_bg" => {
+                // issue a command without waiting for its response (joined later by id)
+                let text = st["text"].as_str().unwrap_or("").to_string();
+                let id = st["id"].as_str().unwrap_or("bg").to_string();
+                let e2 = Arc::clone(&eng);
+                let t2 = text.clone();
+                bg.insert(id, (text, tokio::spawn(async move { e2.cmd(&t2).await })));
+            }
+            "join_bg" => {
+                let id = st["id"].as_str().unwrap_or("bg").to_string();
+                let timeout = st.get("timeout_ms").and_then(|t| t.as_u64()).unwrap_or(30000);
+                if let Some((text, h)) = bg.remove(&id) {
+                    let res = tokio::time::timeout(std::time::Duration::from_millis(timeout), h).await;
+                    let obs = match res {
+                        Err(_) => json!({"outcome": "timeout"}),
+                        Ok(Err(je)) => json!({"outcome": "panic", "detail": format!("{je}")}),
+                        Ok(Ok(CmdOutcome::ParseError(e))) => json!({"outcome": "parse_error", "detail": e}),
+                        Ok(Ok(CmdOutcome::Panic(e))) => json!({"outcome": "panic", "detail": e}),
+                        Ok(Ok(CmdOutcome::Response(d))) => {
+                            let mut v = d.to_json();
+                            v["outcome"] = json!("response");
+                            v
+                        }
+                    };
+                    let mut o = json!({"i": i, "op": "join_bg", "tag": tag, "text": text});
+                    for (k, v) in obs.as_object().unwrap() {
+                        o[k] = v.clone();
+                    }
+                    emit(&mut out, o);
+                } else {
+                    emit(&mut out, json!({"i": i, "op": "join_bg", "tag": tag, "outcome": "unknown id"}));
+                }
+            }
+            "drive_until" => {
+                // release (and re-arm) the park point `name` whenever a task is parked there, until the hook
+                // `until` has been passed n times: lets one multi-call step of the code run to its end
+                let name = st["name"].as_str().unwrap_or("").to_string();
+                let until = st["until"].as_str().unwrap_or("").to_string();
+                let n = st.get("n").and_then(|a| a.as_u64()).unwrap_or(1);
+                let ms = st.get("ms").and_then(|a| a.as_u64()).unwrap_or(5000);
+                let t0 = std::time::Instant::now();
+                let mut releases = 0u64;
+                while snel_db::verif::count(&until) < n && (t0.elapsed().as_millis() as u64) < ms {
+                    let n2 = name.clone();
+                    let parked = tokio::task::spawn_blocking(move || snel_db::verif::wait_parked(&n2, 5)).await.unwrap_or(false);
+                    if parked {
+                        snel_db::verif::release_rearm(&name);
+                        releases += 1;
+                    }
+                }
+                let got = snel_db::verif::count(&until);
+                emit(&mut out, json!({"i": i, "op": "drive_until", "name": name, "until": until, "count": got, "reached": got >= n, "releases": releases, "tag": tag}));
+            }
+            "wait_count" => {
+                // wait until the named hook has been passed at least n times in this lifetime
+                let name = st["name"].as_str().unwrap_or("").to_string();
+                let n = st.get("n").and_then(|a| a.as_u64()).unwrap_or(1);
+                let ms = st.get("ms").and_then(|a| a.as_u64()).unwrap_or(5000);
+                let t0 = std::time::Instant::now();
+                let mut got = snel_db::verif::count(&name);
+                while got < n && (t0.elapsed().as_millis() as u64) < ms {
+                    tokio::time::sleep(std::time::Duration::from_millis(2)).await;
+                    got = snel_db::verif::count(&name);
+                }
+                emit(&mut out, json!({"i": i, "op": "wait_count", "name": name, "count": got, "reached": got >= n, "tag": tag}));
             }
             "compact" => {
                 let shards: Vec<usize> = match st.get("shard").and_then(|s| s.as_u64()) {
@@ -212,9 +282,10 @@ async fn run(script: Value, out_path: String) -> i32 {
             }
             "release" => {
                 let name = st["name"].as_str().unwrap_or("");
-                snel_db::verif::release(name);
                 if st.get("rearm").and_then(|a| a.as_bool()).unwrap_or(false) {
-                    snel_db::verif::park_at(name);
+                    snel_db::verif::release_rearm(name);
+                } else {
+                    snel_db::verif::release(name);
                 }
             }
             "clock_secs" => {
